@@ -32,6 +32,7 @@ func checkC06(p *Prog, r *Report) {
 	ruleC06Redispatch(p, a, r)
 	ruleC06VerbatimTags(p, a, r)
 	ruleC06Source(p, a, r)
+	ruleC06RawSource(p, a, r)
 	ruleC06VerbatimBody(p, a, r)
 }
 
@@ -1182,5 +1183,105 @@ func eachDominatingCond(in ssa.Instruction, fn func(c ssa.Value, pol bool) bool)
 				}
 			}
 		}
+	}
+}
+
+// ruleC06RawSource: a template is rendered from what was compiled, never from its source text: the field of Template that
+// holds the source (the one whose content is handed to the lexer) is not read by anything execution can reach. A fast
+// path that copies the source of a "static" template to the output renders its `{# #}` comments (and whatever else the
+// lexer would have taken out) verbatim.
+func ruleC06RawSource(p *Prog, a *Anchors, r *Report) {
+	r.Begin("R-C06-RAWSRC", "the source text kept in a Template (the field handed to the lexer) is read only while compiling: no function reachable from execution loads it", 1)
+	// the source field: string fields of Template whose load is an argument of a call that (transitively, depth 2)
+	// stores a parameter into lexer.input
+	tn := p.Named("Template")
+	if tn == nil {
+		r.Unk("anchor", "-", "anchor unresolved: Template")
+		return
+	}
+	feedsLexer := map[*ssa.Function]map[int]bool{}
+	p.EachInstr(func(f *ssa.Function, in ssa.Instruction) {
+		st, ok := in.(*ssa.Store)
+		if !ok || !isFieldAddrOf(st.Addr, "lexer", "input") {
+			return
+		}
+		v := stripLoad(st.Val)
+		if cv, isCv := v.(*ssa.Convert); isCv {
+			v = stripLoad(cv.X)
+		}
+		if pa, isP := v.(*ssa.Parameter); isP {
+			if feedsLexer[f] == nil {
+				feedsLexer[f] = map[int]bool{}
+			}
+			feedsLexer[f][indexOfParam(f, pa)] = true
+		}
+	})
+	fields := map[string]bool{}
+	p.EachInstr(func(f *ssa.Function, in ssa.Instruction) {
+		c, ok := in.(*ssa.Call)
+		if !ok || c.Common().StaticCallee() == nil {
+			return
+		}
+		idxs := feedsLexer[c.Common().StaticCallee()]
+		args := callArgs(c.Common())
+		for i := range idxs {
+			if i < len(args) {
+				v0 := stripLoad(args[i])
+				v := v0
+				if cv, isCv := v.(*ssa.Convert); isCv {
+					v = stripLoad(cv.X)
+				}
+				if _, n, fld := fieldLoadBase(v); n != nil && n.Obj().Name() == "Template" {
+					fields[fld] = true
+				}
+				// … or the same value is also kept in the Template under construction
+				for _, bb := range f.Blocks {
+					for _, x := range bb.Instrs {
+						if st, isSt := x.(*ssa.Store); isSt && (stripLoad(st.Val) == v || stripLoad(st.Val) == v0) {
+							if fa, isFA := st.Addr.(*ssa.FieldAddr); isFA {
+								if n := structOf(fa.X.Type()); n != nil && n.Obj().Name() == "Template" {
+									fields[fieldName(fa.X.Type(), fa.Field)] = true
+								}
+							}
+						}
+					}
+				}
+			}
+		}
+	})
+	if len(feedsLexer) == 0 {
+		r.Unk("source-field", "-", "anchor unresolved: no function stores a parameter into lexer.input")
+		return
+	}
+	if len(fields) == 0 {
+		r.Trivial("source-field", "-", "no field of Template keeps the text that is handed to the lexer")
+		return
+	}
+	reach := a.ExecReach()
+	bad := false
+	for _, f := range p.inPkgFuncsSorted(p.allFuncSet()) {
+		if !reach[f] && !reach[topLevel(f)] {
+			continue
+		}
+		for _, b := range f.Blocks {
+			for _, in := range b.Instrs {
+				u, ok := in.(*ssa.UnOp)
+				if !ok {
+					continue
+				}
+				if _, n, fld := fieldLoadBase(u); n != nil && n.Obj().Name() == "Template" && fields[fld] {
+					bad = true
+					r.Bad(p.FuncName(f)+":reads Template."+fld, p.InstrPos(in), "execution reads the source text of a template (Template.%s): what is rendered from it has not been through the lexer, so comments, verbatim tags and delimiters in it are copied out as they are", fld)
+				}
+			}
+		}
+	}
+	if !bad {
+		var fs []string
+		for f := range fields {
+			fs = append(fs, f)
+		}
+		sort.Strings(fs)
+		r.OK("source-field", "-", "Template.%s is read by the lexer's construction only; nothing reachable from execution loads it", strings.Join(fs, "/"))
 	}
 }
